@@ -94,6 +94,9 @@ def regenerate(ctx):
     text = pf2v.translate(core.GRIST)
   except pf2v.Untranslatable as e:
     raise core.TieBroken('predicate_formula / collector methods are outside the translated subset: %s' % e)
+  ctx.extra['pinned_glue'] = predgen.check_pinned_glue(['predicate_formula.process_renames',
+                                                        'dropdown_condition.perform_dropdown_condition_renames',
+                                                        'trigger_expression.perform_trigger_condition_renames'])
   core.write_if_changed(os.path.join(core.COQ, 'gen', 'Predicate_gen.v'), text)
   from harness import pr2v
   try:
